@@ -39,6 +39,21 @@ Theorem C10_demand : forall W D q n, f10 q = true ->
   demand_ok (trace_k W D q n) /\ demand_ok (trace_full W D q).
 Proof. intros W D q n H. split; [apply trace_k_demand | apply trace_full_demand]; exact H. Qed.
 
+(* several evaluations one after the other over the same variables (the same an(...) evaluated again after its iterator
+   was abandoned, or a second query sharing the variables): the log only grows, every domain is still consumed as the index
+   prefix 0,1,2,... across ALL evaluations (a later evaluation continues where the cache ends: nothing is pulled twice,
+   nothing is skipped), and the rows of the later evaluation are again the first m rows of its query *)
+Theorem C10_reeval : forall W D steps more x q1 n q2 m,
+  pulls_in_order x (trace_seq W D steps) /\
+  Prefix (trace_seq W D steps) (trace_seq W D (steps ++ more)) /\
+  trace_seq W D [(q1, n)] = trace_k W D q1 n /\
+  (qfree_o (q_cond q1) = true -> qfree_o (q_cond q2) = true ->
+   rows_of (trace_seq W D [(q1, n); (q2, m)]) = firstn n (run W D q1) ++ firstn m (run W D q2)).
+Proof.
+  intros W D steps more x q1 n q2 m.
+  split; [apply trace_seq_pulls_in_order | split; [apply trace_seq_prefix | split; [apply trace_seq_single | apply trace_seq_rows2]]].
+Qed.
+
 (* the executable Spec the harness evaluates on the REAL engine's logs decides exactly these predicates *)
 Theorem C10_spec_exec : forall t a b x,
   (demand_okb t = true <-> demand_ok t) /\ (prefixb a b = true <-> Prefix a b) /\
@@ -91,6 +106,7 @@ Print Assumptions C10_prefix_rows.
 Print Assumptions C10_prefix_trace.
 Print Assumptions C10_pulls_prefix.
 Print Assumptions C10_demand.
+Print Assumptions C10_reeval.
 Print Assumptions C10_spec_exec.
 Print Assumptions C10_refuted_product.
 Print Assumptions C10_refuted_product_unbound.
